@@ -125,7 +125,7 @@ def run(C, R):
                                'path [%s]' % (m['path'], fmt_val(x), fmt_val(x), path_cond(E, path)),
                                where(F, w), {'trace': trace_summary(path)})
                 if is_entry:
-                    grant = path.ret == ('const', 1) or poll_variant(E, path) == 'Ready'
+                    grant = path.ret == ('const', 1) or const_of(E, path.facts, path.ret) == 1 or poll_variant(E, path) == 'Ready'
                     if grant and len(subs) != 1:
                         R.fail('C05.R3', [m['path'], 'grant-without-single-subtraction', path_cond(E, path)],
                                '%s reports success with %d subtractions [%s]' % (m['path'], len(subs),
